@@ -172,18 +172,36 @@ func init() {
 		outb = append(outb, dst.Bytes()...)
 		return hx(outb) + " copy:" + classify(err)
 	}
-	ops["cwr"] = func(a []string) string { // cwr <mask> <accepts> <p1,p2,...>
+	// cwr <mask> <accepts> <p1,p2,...>; cwrs: the same bytes, but the chunks reach the CipherWriter the way other
+	// writers' callers hand them over — io.WriteString (an io.StringWriter, if the type ever grows one, is
+	// preferred over Write) on even chunks, io.Copy from a strings.Reader on odd ones; the result must not differ
+	cwrOp := func(viaString bool) func(a []string) string {
+		return func(a []string) string {
 		lw := &limitWriter{acc: ints(a[1])}
 		cw := wsutil.NewCipherWriter(lw, mask4(a[0]))
 		var res []string
 		intact := true
 		var callers, origs [][]byte
-		for _, ph := range strings.Split(a[2], ",") {
+		for ci, ph := range strings.Split(a[2], ",") {
 			p := unhx(ph)
 			orig := append([]byte(nil), p...)
 			callers, origs = append(callers, p), append(origs, orig)
 			cwrCaller, cwrOrig, cwrTouchedDuring = p, orig, false
-			n, err := cw.Write(p)
+			var n int
+			var err error
+			switch {
+			case viaString && ci%2 == 0:
+				n, err = io.WriteString(cw, string(p))
+			case viaString:
+				var n64 int64
+				n64, err = io.Copy(cw, strings.NewReader(string(p)))
+				n = int(n64)
+				if len(p) == 0 && err == nil {
+					n, err = cw.Write(p) // io.Copy of nothing calls nobody
+				}
+			default:
+				n, err = cw.Write(p)
+			}
 			cwrCaller = nil
 			if !bytes.Equal(orig, p) || cwrTouchedDuring {
 				intact = false
@@ -201,7 +219,10 @@ func init() {
 			}
 		}
 		return fmt.Sprintf("%s %s intact=%d", hx(lw.buf.Bytes()), strings.Join(res, ","), b2i(intact))
+		}
 	}
+	ops["cwr"] = cwrOp(false)
+	ops["cwrs"] = cwrOp(true)
 	// cwrr: like cwr, but after a short write the caller retries the unaccepted tail through the same
 	// CipherWriter (the destination then takes it whole) and goes on: the destination must end up with
 	// the XOR of ALL the bytes at their running offsets.
@@ -338,6 +359,9 @@ func genC02(tier string, r *rng) {
 			}
 		}
 		run(fmt.Sprintf("cwr %s %s %s", keys[r.intn(4)], strings.Join(acc, ","), strings.Join(ps, ",")))
+		if i%3 == 0 {
+			run(fmt.Sprintf("cwrs %s - %s", keys[r.intn(4)], strings.Join(ps, ",")))
+		}
 		run(fmt.Sprintf("cwrr %s %s %s", keys[r.intn(4)], strings.Join(acc, ","), strings.Join(ps, ",")))
 		if i%25 == 0 {
 			// caller slices whose capacity is a byte-pool class, every key incl. the zero key
@@ -353,6 +377,9 @@ func genC02(tier string, r *rng) {
 	// single writes above the byte pool's largest class (65536), not a multiple of it, then more writes (offset carries on)
 	for _, n := range []int{65536, 65537, 70001, 131072, 131075} {
 		run(fmt.Sprintf("cwr %s - %s,%s", keys[n%4], hx(r.bytes(n)), hx(r.bytes(5))))
+		if n <= 9 {
+			run(fmt.Sprintf("cwrs %s - %s,%s,%s", keys[1+n%3], hx(r.bytes(n)), hx(r.bytes(n+1)), hx(r.bytes(6))))
+		}
 	}
 	// the unmasking helpers on a frame that is NOT masked (zero key, and a stale key left in the header)
 	for _, v := range []string{"unmask", "unmaskInPlace"} {
